@@ -1367,3 +1367,208 @@ fn c07_garble_input_labels_are_fresh_draws() {
     std::mem::forget(res);
     std::mem::forget(circ);
 }
+
+// ------------------------------------------------------------------------------------------
+// C01: free XOR / NOT / register reuse - garbler's zero-labels vs. the evaluator's active labels
+
+/// Stand-in for FileOrMemBuf::<[Share;4]>::iter(): no table shares (circuits without AND gates).
+pub(crate) struct EnvTableIter;
+impl Iterator for EnvTableIter {
+    type Item = Result<[Share; 4], NoErr>;
+    fn next(&mut self) -> Option<Self::Item> {
+        None
+    }
+}
+
+fn xor_not_circuit() -> Circuit {
+    Circuit {
+        input_regs: vec![1, 1],
+        insts: vec![
+            Inst { out: Reg(0), op: Op::Input(Input { party: 0, input: 0 }) },
+            Inst { out: Reg(1), op: Op::Input(Input { party: 1, input: 0 }) },
+            Inst { out: Reg(2), op: Op::Xor(Xor(Reg(0), Reg(1))) },
+            Inst { out: Reg(0), op: Op::Not(Not(Reg(2))) }, // register reuse
+        ],
+        max_reg_count: 3,
+        output_regs: vec![Reg(0), Reg(1)],
+        and_ops: 0,
+    }
+}
+
+/// C01/C07 - garbler side of free XOR / NOT with register reuse (state set-up + loop cut from
+/// garble()): zero-labels are  L(in0)=r0, L(in1)=r1, L(xor)=r0^r1, L(not)=r0^r1^delta.
+#[kani::proof]
+#[kani::unwind(6)]
+#[kani::stub(std::fmt::format, no_format)]
+fn c01_free_xor_not_garbler_labels() {
+    let circ = xor_not_circuit();
+    let r: [u128; 4] = [kani::any(), kani::any(), kani::any(), kani::any()];
+    unsafe {
+        ENV_R = r;
+        ENV_R_NEXT = 0;
+    }
+    let delta_g: u128 = kani::any();
+    let ch = NoChan;
+    let ctx_g = mk_ctx(&ch, &circ, &NO_INPUTS, 0, 1, &NO_PARTIES);
+    let mut rs = EnvShareBuf(2);
+    let g = seg_garble_garbler_full(&ctx_g, Delta(delta_g), &mut rs, EnvShareBuf(0));
+    let okg = g.is_ok();
+    assert!(okg, "C01:free-xor:garbler-Ok");
+    if let Ok((input_labels, zero, _sent)) = &g {
+        assert!(input_labels.len() == 2 && zero.len() == 3, "C01:free-xor:garbler-label-vectors");
+        if input_labels.len() == 2 && zero.len() == 3 {
+            assert!(input_labels[0].0 == r[0] && input_labels[1].0 == r[1], "C01:free-xor:input-zero-labels");
+            assert!(zero[2].0 == r[0] ^ r[1], "C01:free-xor:zero-label-of-XOR==xor-of-zero-labels");
+            assert!(zero[0].0 == r[0] ^ r[1] ^ delta_g, "C01:free-xor:zero-label-of-NOT==zero-label^delta(register-reuse)");
+            assert!(zero[1].0 == r[1], "C01:free-xor:untouched-register-keeps-its-label");
+        }
+    }
+    kani::cover!(okg, "free_xor_garbler_reachable");
+    std::mem::forget(g);
+    std::mem::forget(circ);
+}
+
+fn evaluator_labels(with_not: bool) {
+    let i0 = Inst { out: Reg(0), op: Op::Input(Input { party: 0, input: 0 }) };
+    let i1 = Inst { out: Reg(1), op: Op::Input(Input { party: 1, input: 0 }) };
+    let third = if with_not { Inst { out: Reg(0), op: Op::Not(Not(Reg(1))) } } else { Inst { out: Reg(0), op: Op::Xor(Xor(Reg(0), Reg(1))) } };
+    let circ = Circuit { input_regs: vec![1, 1], insts: vec![i0, i1, third], max_reg_count: 2, output_regs: vec![Reg(0)], and_ops: 0 };
+    let l0: [u128; 2] = [kani::any(), kani::any()];
+    let delta_g: u128 = kani::any();
+    let m: [bool; 2] = [kani::any(), kani::any()];
+    let act = |w: usize| Label(l0[w] ^ (if m[w] { delta_g } else { 0 }));
+    let ch = NoChan;
+    let ctx_e = mk_ctx(&ch, &circ, &NO_INPUTS, 0, 0, &NO_PARTIES);
+    let e = seg_evaluate_loop(
+        &ctx_e,
+        Delta(kani::any()),
+        vec![Some(m[0]), Some(m[1])],
+        vec![Some(vec![Label(0), act(0)]), Some(vec![Label(0), act(1)])],
+        vec![false, false],
+        vec![Vec::new(), Vec::new()],
+        vec![EnvGateIter(None), EnvGateIter(None)],
+        EnvTableIter,
+    );
+    let oke = e.is_ok();
+    assert!(oke, "C01:free-xor:evaluator-Ok");
+    if let Ok((values, labels_eval)) = &e {
+        // register 0 is overwritten (reuse): XOR(r0, r1) resp. NOT(r1)
+        let (v0, z0) = if with_not { (!m[1], l0[1] ^ delta_g) } else { (m[0] ^ m[1], l0[0] ^ l0[1]) };
+        let ok = values.len() == 2 && labels_eval.len() == 2 && values[0] == v0 && values[1] == m[1]
+            && labels_eval[0].len() == 2 && labels_eval[1].len() == 2
+            && labels_eval[0][1].0 == z0 ^ (if v0 { delta_g } else { 0 })
+            && labels_eval[1][1].0 == l0[1] ^ (if m[1] { delta_g } else { 0 });
+        assert!(ok, "C01:free-xor:active-label==zero-label^value*delta-at-every-register(and-values-as-evaluated)");
+    }
+    kani::cover!(oke, "free_xor_evaluator_reachable");
+    std::mem::forget(e);
+    std::mem::forget(circ);
+}
+
+/// C01 - evaluator side (loop cut from evaluate()), n = 2, Input/Input/XOR with register reuse:
+/// values are the circuit on the masked inputs and the active label at every register is
+/// zero-label ^ value*delta (zero-labels as established for the garbler above).
+#[kani::proof]
+#[kani::unwind(5)]
+#[kani::stub(std::fmt::format, no_format)]
+fn c01_free_xor_evaluator_labels() {
+    evaluator_labels(false);
+}
+
+/// Same for Input/Input/NOT: NOT flips the masked value and keeps the active label.
+#[kani::proof]
+#[kani::unwind(5)]
+#[kani::stub(std::fmt::format, no_format)]
+fn c01_free_not_evaluator_labels() {
+    evaluator_labels(true);
+}
+
+// ------------------------------------------------------------------------------------------
+// n = 3 variants of the acceptance steps (own index 0, peers 1 and 2)
+
+fn sh3(bit: bool, m1: u128, k1: u128, m2: u128, k2: u128) -> Share {
+    Share(bit, Auth(vec![(Mac(0), Key(0)), (Mac(m1), Key(k1)), (Mac(m2), Key(k2))]))
+}
+
+/// C03 (n = 3) - input sharing at the input owner: Ok implies that BOTH peers' mask shares were
+/// present and MAC-verified under the respective own key; masked == input ^ own ^ s1 ^ s2.
+#[kani::proof]
+#[kani::unwind(6)]
+#[kani::stub(std::fmt::format, no_format)]
+fn c03_ip_mid_n3() {
+    let circ = Circuit {
+        input_regs: vec![1, 1, 1],
+        insts: vec![
+            Inst { out: Reg(0), op: Op::Input(Input { party: 0, input: 0 }) },
+            Inst { out: Reg(1), op: Op::Input(Input { party: 1, input: 0 }) },
+        ],
+        max_reg_count: 2,
+        output_regs: vec![Reg(0)],
+        and_ops: 0,
+    };
+    let delta = Delta(kani::any());
+    let input: bool = kani::any();
+    let inputs = [input];
+    let k: [u128; 2] = [kani::any(), kani::any()];
+    let own_bit: bool = kani::any();
+    let own0 = sh3(own_bit, kani::any(), k[0], kani::any(), k[1]);
+    let own1 = sh3(kani::any(), kani::any(), kani::any(), kani::any(), kani::any());
+    let p1 = [any_opt_bool_mac(), any_opt_bool_mac()];
+    let p2 = [any_opt_bool_mac(), any_opt_bool_mac()];
+    let ch = NoChan;
+    let ctx = mk_ctx(&ch, &circ, &inputs, 1, 0, &NO_PARTIES);
+    let r = seg_ip_mid(&ctx, &circ, &inputs, 0, 3, delta, vec![own0, own1], vec![vec![], vec![p1[0], p1[1]], vec![p2[0], p2[1]]]);
+    let ok = r.is_ok();
+    kani::cover!(ok, "ip_mid_n3_ok_reachable");
+    kani::cover!(!ok, "ip_mid_n3_err_reachable");
+    if let Ok(masked) = &r {
+        assert!(p1[0].is_some() && p2[0].is_some(), "C03:input-n3:missing-peer-mask-share-not-accepted");
+        if let (Some((b1, m1)), Some((b2, m2))) = (p1[0], p2[0]) {
+            assert!(m1.0 == k[0] ^ (if b1 { delta.0 } else { 0 }), "C03:input-n3:peer-1-share-MAC-verified");
+            assert!(m2.0 == k[1] ^ (if b2 { delta.0 } else { 0 }), "C03:input-n3:peer-2-share-MAC-verified");
+            assert!(masked.len() == 2 && masked[0] == Some(input ^ own_bit ^ b1 ^ b2) && masked[1].is_none(), "C03:input-n3:masked==input^all-mask-shares");
+        }
+    }
+    std::mem::forget(r);
+    std::mem::forget(circ);
+}
+
+/// C02/C03 (n = 3) - output opening: Ok implies both peers' shares present + MAC-verified for
+/// every output register, bit == value ^ own ^ s1 ^ s2.
+#[kani::proof]
+#[kani::unwind(6)]
+#[kani::stub(std::fmt::format, no_format)]
+fn c02_output_tail_n3() {
+    let circ = Circuit { input_regs: vec![1, 1, 1], insts: vec![], max_reg_count: 2, output_regs: vec![Reg(1), Reg(0)], and_ops: 0 };
+    let delta = Delta(kani::any());
+    let k1: [u128; 2] = [kani::any(), kani::any()];
+    let k2: [u128; 2] = [kani::any(), kani::any()];
+    let ob: [bool; 2] = [kani::any(), kani::any()];
+    let s0 = sh3(ob[0], kani::any(), k1[0], kani::any(), k2[0]);
+    let s1 = sh3(ob[1], kani::any(), k1[1], kani::any(), k2[1]);
+    let p1 = [any_opt_bool_mac(), any_opt_bool_mac()];
+    let p2 = [any_opt_bool_mac(), any_opt_bool_mac()];
+    let ev = [any_opt_bool(), any_opt_bool()];
+    let p_out = [0usize];
+    let ch = NoChan;
+    let ctx = mk_ctx(&ch, &circ, &NO_INPUTS, 1, 0, &p_out);
+    let r = seg_output_tail(&ctx, &circ, 0, 3, &p_out, delta, vec![s0, s1], vec![vec![], vec![p1[0], p1[1]], vec![p2[0], p2[1]]], vec![ev[0], ev[1]]);
+    let ok = r.is_ok();
+    kani::cover!(ok, "output_n3_ok_reachable");
+    kani::cover!(!ok, "output_n3_err_reachable");
+    if let Ok(bits) = &r {
+        let regs = [1usize, 0usize];
+        let mut idx = 0;
+        while idx < 2 {
+            let w = regs[idx];
+            assert!(ev[w].is_some() && p1[w].is_some() && p2[w].is_some(), "C02:output-n3:omitted-share-or-value-not-accepted");
+            if let (Some(v), Some((b1, m1)), Some((b2, m2))) = (ev[w], p1[w], p2[w]) {
+                assert!(m1.0 == k1[w] ^ (if b1 { delta.0 } else { 0 }) && m2.0 == k2[w] ^ (if b2 { delta.0 } else { 0 }), "C02:output-n3:peer-share-MACs-verified");
+                assert!(bits.len() == 2 && bits[idx] == (v ^ ob[w] ^ b1 ^ b2), "C02:output-n3:bit==value^all-mask-shares");
+            }
+            idx += 1;
+        }
+    }
+    std::mem::forget(r);
+    std::mem::forget(circ);
+}
